@@ -1,9 +1,9 @@
 (* C16 — digitised images are bounded, monotone, saturating and never wrap.
    Only statements here; proofs live in Proofs/.  Gen_C16 is regenerated from
-   pyxel/util/misc.py (get_dtype) on every run. *)
+   pyxel/util/misc.py (get_dtype) and from the three detector-level converter models on every run. *)
 From Coq Require Import ZArith List Bool Reals Lia.
 From Flocq Require Import Core BinarySingleNaN.
-From PyxelV Require Import Lib.B64 Model.Adc Proofs.AdcChain Proofs.AdcFloat Proofs.AdcRange Proofs.AdcSar Proofs.AdcSar0 Proofs.AdcWitness.
+From PyxelV Require Import Lib.B64 Model.Adc Proofs.AdcChain Proofs.AdcFloat Proofs.AdcRange Proofs.AdcSimple Proofs.AdcSar Proofs.AdcSar0 Proofs.AdcSarp Proofs.AdcFrame Proofs.AdcWrap Proofs.AdcWitness.
 From PyxelGen Require Import Gen_C16.
 Import ListNotations.
 Open Scope Z_scope.
@@ -20,13 +20,45 @@ Theorem C16_dtype_refuses_outside :
 Proof. apply chain_refuses_sound. vm_compute. reflexivity. Qed.
 Print Assumptions C16_dtype_refuses_outside.
 
-(* ---- simple converter: a higher voltage never yields a lower code.
-   For ALL finite ranges vmin < vmax, all resolutions, all non-NaN voltages x <= y (infinities
-   included), whenever both casts to the unsigned type are defined. No bound on the range. *)
-Theorem C16_monotone :
-  forall (bits : Z) (vmin vmax : b64), 0 <= bits ->
+(* ================================================================ simple converter
+   (clip, scale by 2^bits - 1 in double precision, truncate, clamp to the largest double not above full
+   scale, cast; voltages at or above the range maximum are set to full scale).
+   All statements: EVERY resolution 0..64, ALL finite ranges vmin < vmax (no bound on the span), ALL
+   non-NaN voltages, infinities included. *)
+
+(* ---- only integers from 0 to 2^bits - 1, whatever the width of the type *)
+Theorem C16_range :
+  forall (bits : Z) (vmin vmax : b64), 0 <= bits <= 64 ->
   is_finite vmin = true -> is_finite vmax = true -> (B2R vmin < B2R vmax)%R ->
-  forall (w : Z) (x y : b64) (cx cy : Z),
+  forall (w : Z) (x : b64) (c : Z), bis_nan x = false ->
+  simple_code w bits vmin vmax x = Some c ->
+  0 <= c <= 2 ^ bits - 1.
+Proof. exact simple_range. Qed.
+Print Assumptions C16_range.
+
+(* ---- never wraps: with the width get_dtype chooses, the float -> unsigned cast of every pixel is
+   defined (its operand is an integer in 0 .. 2^bits - 1 < 2^w), provided the span vmax - vmin itself
+   is a finite double (|vmax - vmin| < 1.8e308) *)
+Theorem C16_never_wraps :
+  forall (bits : Z) (vmin vmax : b64), 1 <= bits <= 64 ->
+  is_finite vmin = true -> is_finite vmax = true -> (B2R vmin < B2R vmax)%R ->
+  is_finite (bsub vmax vmin) = true ->
+  forall (w : Z), chain_width src_dtype_chain bits = Some w ->
+  forall (x : b64), bis_nan x = false ->
+  exists c, simple_code w bits vmin vmax x = Some c /\ 0 <= c <= 2 ^ bits - 1 /\ c < 2 ^ w.
+Proof.
+  intros bits vmin vmax Hb Fmin Fmax Hr Fs w Hw x Nx.
+  destruct (chain_fits src_dtype_chain ltac:(vm_compute; reflexivity) bits w Hb Hw) as [Hle Hlt].
+  destruct (simple_defined bits vmin vmax ltac:(lia) Fmin Fmax Hr w x Hle Fs Nx) as [c [E R]].
+  exists c. split; [exact E|]. split; [exact R|lia].
+Qed.
+Print Assumptions C16_never_wraps.
+
+(* ---- a higher voltage never yields a lower code *)
+Theorem C16_monotone :
+  forall (bits : Z) (vmin vmax : b64), 0 <= bits <= 64 ->
+  is_finite vmin = true -> is_finite vmax = true -> (B2R vmin < B2R vmax)%R ->
+  forall (w : Z) (x y : b64) (cx cy : Z), bits <= w ->
   bis_nan x = false -> bis_nan y = false -> ble x y = true ->
   simple_code w bits vmin vmax x = Some cx ->
   simple_code w bits vmin vmax y = Some cy ->
@@ -34,102 +66,240 @@ Theorem C16_monotone :
 Proof. exact simple_monotone. Qed.
 Print Assumptions C16_monotone.
 
-(* ---- simple converter: voltages at or below the range minimum map to 0 (also -inf), and the cast
-   is defined there *)
+(* ---- voltages at or below the range minimum map to 0 (also -inf), and the cast is defined there *)
 Theorem C16_low_saturates :
-  forall (bits : Z) (vmin vmax : b64), 0 <= bits ->
+  forall (bits : Z) (vmin vmax : b64), 0 <= bits <= 64 ->
   is_finite vmin = true -> is_finite vmax = true -> (B2R vmin < B2R vmax)%R ->
-  forall (w : Z) (x : b64), bits <= 64 -> 0 <= w ->
+  forall (w : Z) (x : b64), 0 <= w ->
   bis_nan x = false -> ble x vmin = true ->
   simple_code w bits vmin vmax x = Some 0.
 Proof. exact simple_low_saturates. Qed.
 Print Assumptions C16_low_saturates.
 
-(* ---- simple converter: only integers from 0 to 2^bits - 1, for resolutions up to 52 bits, ALL finite
-   ranges and ALL non-NaN voltages (the statement for 54..64 bits is refuted below; 53 bits is open:
-   not proved, no counterexample found) *)
-Theorem C16_range_partial :
-  forall (bits : Z) (vmin vmax : b64), 1 <= bits <= 52 ->
-  is_finite vmin = true -> is_finite vmax = true -> (B2R vmin < B2R vmax)%R ->
-  forall (w : Z) (x : b64) (c : Z), bis_nan x = false ->
-  simple_code w bits vmin vmax x = Some c ->
-  0 <= c <= 2 ^ bits - 1.
-Proof. exact simple_range. Qed.
-Print Assumptions C16_range_partial.
+(* ---- voltages at or above the range maximum (also +inf) map to full scale 2^bits - 1 EXACTLY, for
+   every resolution up to 64 bits and every range (this is the statement that was refuted before the
+   repair: C16-F8a/b/c) *)
+Theorem C16_high_saturates :
+  forall (bits : Z) (vmin vmax : b64), 0 <= bits <= 64 ->
+  forall (w : Z) (x : b64), bits <= w -> bge x vmax = true ->
+  simple_code w bits vmin vmax x = Some (2 ^ bits - 1).
+Proof. exact simple_high_saturates. Qed.
+Print Assumptions C16_high_saturates.
 
-(* ---- successive-approximation converter, resolutions up to 53 bits: every code lies in
-   0 .. 2^bits - 1 for ALL voltages (NaN and infinities included) and ALL reference voltages, the cast
-   is defined whenever the type is wide enough, and the code is non-decreasing in the voltage (finite
-   voltages, finite vmax >= 0).  For 54..63 bits the range statement is refuted below. *)
-Theorem C16_sar_range_partial :
-  forall (w bits : Z) (vmax x : b64) (c : Z),
-  1 <= bits <= 53 -> sar_code w bits vmax x = Some c -> 0 <= c <= 2 ^ bits - 1.
-Proof. exact sar_range. Qed.
-Print Assumptions C16_sar_range_partial.
-
-Theorem C16_sar_defined :
-  forall (w bits : Z) (vmax x : b64),
-  1 <= bits <= 53 -> bits <= w -> exists c, sar_code w bits vmax x = Some c.
-Proof. exact sar_defined. Qed.
-Print Assumptions C16_sar_defined.
-
-Theorem C16_sar_monotone_partial :
-  forall (bits : Z), 1 <= bits <= 53 ->
-  forall (w : Z) (vmax x y : b64) (cx cy : Z),
-  is_finite vmax = true -> (0 <= B2R vmax)%R ->
-  is_finite x = true -> is_finite y = true -> ble x y = true ->
-  sar_code w bits vmax x = Some cx -> sar_code w bits vmax y = Some cy -> cx <= cy.
-Proof. exact sar_monotone. Qed.
-Print Assumptions C16_sar_monotone_partial.
-
-(* ---- the noisy variant with zero strengths and zero noises reproduces the noise-free converter
-   exactly: for EVERY voltage (NaN, infinities included), every finite reference voltage >= 0 *)
-Theorem C16_sar_noise0 :
-  forall (w bits : Z) (vmax x : b64),
-  1 <= bits <= 53 -> is_finite vmax = true -> (0 <= B2R vmax)%R ->
-  sar0_code w bits vmax x = sar_code w bits vmax x.
-Proof. exact sar0_eq_sar. Qed.
-Print Assumptions C16_sar_noise0.
-
-(* non-vacuity: the hypotheses are met by an ordinary setting, and the conclusion is not trivial *)
-Example C16_hyps_satisfiable :
-  is_finite (pzero : b64) = true /\ is_finite (bofZ 6) = true /\
-  ble (bofZ 3) (bofZ 6) = true /\ ble ninf pzero = true /\
-  simple_code 8 8 pzero (bofZ 6) (bofZ 3) = Some 127 /\ simple_code 8 8 pzero (bofZ 6) (bofZ 6) = Some 255 /\
-  simple_code 8 8 pzero (bofZ 6) ninf = Some 0.
-Proof. vm_compute. repeat split; reflexivity. Qed.
-
-(* ---- the full statement "voltages at or above the range maximum map to full scale, and codes stay
-   within 0 .. 2^bits-1, for every allowed setting" is FALSE of the code as written: *)
-Definition C16_high_saturates_full : Prop :=
+(* the same with the width taken from get_dtype, in the form of the former `_full` statement *)
+Theorem C16_full_scale_at_maximum :
   forall (bits : Z) (vmin vmax : b64), 4 <= bits <= 64 ->
   is_finite vmin = true -> is_finite vmax = true -> blt vmin vmax = true ->
   forall w, chain_width src_dtype_chain bits = Some w ->
   simple_code w bits vmin vmax vmax = Some (2 ^ bits - 1).
-
-Theorem C16_high_saturates_refuted : ~ C16_high_saturates_full.
 Proof.
-  intros H. specialize (H 28 pzero w_short_vmax ltac:(lia) eq_refl eq_refl (proj1 high_saturation_short_witness) 32 eq_refl).
-  rewrite (proj2 high_saturation_short_witness) in H. discriminate.
+  intros bits vmin vmax Hb Fmin Fmax Hlt w Hw.
+  destruct (chain_fits src_dtype_chain ltac:(vm_compute; reflexivity) bits w ltac:(lia) Hw) as [Hle _].
+  apply simple_high_saturates; [lia|exact Hle|].
+  unfold bge. rewrite ble_finite by assumption. apply Rle_bool_true. apply Rle_refl.
 Qed.
-Print Assumptions C16_high_saturates_refuted.
+Print Assumptions C16_full_scale_at_maximum.
 
-Theorem C16_range_high_bits_refuted :
-  exists bits vmin vmax c, 4 <= bits <= 64 /\ blt vmin vmax = true /\
-  simple_code 64 bits vmin vmax vmax = Some c /\ 2 ^ bits - 1 < c.
+(* ---- NaN, stated explicitly: a NaN voltage is below no maximum and is clamped by nothing
+   (np.minimum propagates it), so the cast of that pixel is undefined — for every setting.  NaN
+   voltages are outside the property's quantifier; this is what the model says happens to them. *)
+Theorem C16_nan_undefined :
+  forall (w bits : Z) (vmin vmax : b64), simple_code w bits vmin vmax bnan = None.
+Proof. exact simple_nan. Qed.
+Print Assumptions C16_nan_undefined.
+
+(* ---- whole frames: on sorted NaN-free voltages the model's image is defined everywhere and satisfies
+   the specification the implementation's image is judged against (range, both saturations, sorted
+   codes, type width) *)
+Theorem C16_simple_frame_meets_spec :
+  forall (bits : Z) (vmin vmax : b64), 1 <= bits <= 64 ->
+  is_finite vmin = true -> is_finite vmax = true -> (B2R vmin < B2R vmax)%R ->
+  is_finite (bsub vmax vmin) = true ->
+  forall xs, no_nan xs = true -> sortedB xs = true ->
+  exists w cs, simple_frame src_dtype_chain bits vmin vmax xs = Some (w, map Some cs) /\
+               simple_spec bits vmin vmax xs w cs = true.
+Proof. apply simple_frame_meets_spec. vm_compute. reflexivity. Qed.
+Print Assumptions C16_simple_frame_meets_spec.
+
+(* ================================================================ successive-approximation converter
+   (integer accumulator, double-precision remainder), EVERY resolution: every code lies in
+   0 .. 2^bits - 1 for ALL voltages (NaN and infinities included) and ALL reference voltages, the
+   unsigned accumulator never wraps and the result is defined whenever the type is wide enough (it is:
+   C16_dtype_wide_enough), and the code is non-decreasing in the voltage (all non-NaN voltages,
+   infinities included; finite vmax >= 0). *)
+Theorem C16_sar_range :
+  forall (w bits : Z) (vmax x : b64) (c : Z),
+  1 <= bits -> sar_code w bits vmax x = Some c -> 0 <= c <= 2 ^ bits - 1.
+Proof. exact sar_range. Qed.
+Print Assumptions C16_sar_range.
+
+Theorem C16_sar_defined :
+  forall (w bits : Z) (vmax x : b64),
+  1 <= bits -> bits <= w ->
+  sar_code w bits vmax x = Some (sar_acc bits vmax x) /\ 0 <= sar_acc bits vmax x <= 2 ^ bits - 1.
+Proof. intros w bits vmax x Hb Hw. split; [apply sar_defined; assumption|apply sar_acc_range; assumption]. Qed.
+Print Assumptions C16_sar_defined.
+
+Theorem C16_sar_monotone :
+  forall (bits : Z), 1 <= bits ->
+  forall (w : Z) (vmax x y : b64) (cx cy : Z),
+  is_finite vmax = true -> (0 <= B2R vmax)%R ->
+  bis_nan x = false -> bis_nan y = false -> ble x y = true ->
+  sar_code w bits vmax x = Some cx -> sar_code w bits vmax y = Some cy -> cx <= cy.
 Proof.
-  exists 54, (mk (-3) (-1)), (mk 9 (-2)), (2 ^ 54).
-  split; [lia|]. split; [exact (proj1 high_bits_exceed_witness)|]. split; [exact (proj2 high_bits_exceed_witness)|lia].
+  intros bits Hb w vmax x y cx cy Fv Pv Nx Ny Hxy Hx Hy.
+  destruct (Z_lt_le_dec w bits) as [L|L].
+  - (* a type narrower than the resolution: only the defined casts are compared *)
+    pose proof (sar_acc_monotone_ext bits Hb vmax x y Fv Pv Nx Ny Hxy) as H.
+    unfold sar_code, cast_unsigned in Hx, Hy.
+    destruct ((0 <=? sar_acc bits vmax x) && (sar_acc bits vmax x <? 2 ^ w)); [|discriminate].
+    destruct ((0 <=? sar_acc bits vmax y) && (sar_acc bits vmax y <? 2 ^ w)); [|discriminate].
+    inversion Hx; inversion Hy; subst; exact H.
+  - rewrite (sar_defined w bits vmax x Hb L) in Hx. rewrite (sar_defined w bits vmax y Hb L) in Hy.
+    inversion Hx; inversion Hy; subst. apply sar_acc_monotone_ext; assumption.
 Qed.
-Print Assumptions C16_range_high_bits_refuted.
+Print Assumptions C16_sar_monotone.
 
-Theorem C16_wrap_refuted :
-  exists vmin vmax, blt vmin vmax = true /\
-  btruncZ (simple_scaled 64 vmin vmax vmax) = Some (2 ^ 64) /\ simple_code 64 64 vmin vmax vmax = None.
-Proof. exists pzero, (bofZ 1). split; [reflexivity|exact wrap_witness]. Qed.
-Print Assumptions C16_wrap_refuted.
+(* the SAR converter saturates at the infinities: -inf gives 0, +inf gives full scale *)
+Theorem C16_sar_infinities :
+  forall (bits : Z) (vmax : b64), 1 <= bits -> is_finite vmax = true -> (0 <= B2R vmax)%R ->
+  sar_acc bits vmax ninf = 0 /\ sar_acc bits vmax pinf = 2 ^ bits - 1.
+Proof. intros bits vmax Hb Fv Pv. split; [apply sar_acc_ninf|apply sar_acc_pinf]; assumption. Qed.
+Print Assumptions C16_sar_infinities.
 
-Theorem C16_sar_range_high_bits_refuted :
-  exists bits vmax x c, 4 <= bits <= 64 /\ sar_code 64 bits vmax x = Some c /\ 2 ^ bits - 1 < c.
-Proof. exists 54, (bofZ 1), (bofZ 2), (2 ^ 54). split; [lia|]. split; [exact sar_exceed_witness|lia]. Qed.
-Print Assumptions C16_sar_range_high_bits_refuted.
+Theorem C16_sar_frame_meets_spec :
+  forall (bits : Z) (vmax : b64), 1 <= bits <= 64 ->
+  is_finite vmax = true -> (0 <= B2R vmax)%R ->
+  forall xs, no_nan xs = true -> sortedB xs = true ->
+  exists w cs, sar_frame src_dtype_chain bits vmax xs = Some (w, map Some cs) /\ sar_spec bits xs w cs = true.
+Proof. apply sar_frame_meets_spec. vm_compute. reflexivity. Qed.
+Print Assumptions C16_sar_frame_meets_spec.
+
+(* ---- the noisy variant with zero strengths and zero noises reproduces the noise-free converter
+   exactly: EVERY resolution, EVERY voltage (NaN, infinities included), every finite vmax >= 0 *)
+Theorem C16_sar_noise0 :
+  forall (w bits : Z) (vmax x : b64),
+  is_finite vmax = true -> (0 <= B2R vmax)%R ->
+  sar0_code w bits vmax x = sar_code w bits vmax x.
+Proof. exact sar0_eq_sar. Qed.
+Print Assumptions C16_sar_noise0.
+
+(* ---- the noisy variant in general: WHATEVER perturbation of the reference voltage is drawn for each
+   bit (any doubles, NaN and infinities included — the random draws are universally quantified), every
+   code lies in 0 .. 2^bits - 1, the unsigned accumulator never wraps, and the image is defined with the
+   type get_dtype chooses; with all perturbations +0.0 it is the noise-free converter *)
+Theorem C16_noisy_range :
+  forall (w bits : Z) (vmax : b64) (ps : list b64) (x : b64) (c : Z),
+  1 <= bits -> sarp_code w bits vmax ps x = Some c -> 0 <= c <= 2 ^ bits - 1.
+Proof. exact sarp_range. Qed.
+Print Assumptions C16_noisy_range.
+
+Theorem C16_noisy_frame_meets_spec :
+  forall (bits : Z) (vmax : b64) (ps xs : list b64), 1 <= bits <= 64 -> bits <= Z.of_nat (length ps) ->
+  exists w cs, sarp_frame src_dtype_chain bits vmax ps xs = Some (w, map Some cs) /\ noisy_spec bits xs w cs = true.
+Proof. apply sarp_frame_meets_spec. vm_compute. reflexivity. Qed.
+Print Assumptions C16_noisy_frame_meets_spec.
+
+Theorem C16_noisy_zero_is_noise_free :
+  forall (w bits : Z) (vmax x : b64),
+  is_finite vmax = true -> (0 <= B2R vmax)%R ->
+  sarp_code w bits vmax (repeat pzero (Z.to_nat bits)) x = sar_code w bits vmax x.
+Proof. exact sarp_zero_eq_sar. Qed.
+Print Assumptions C16_noisy_zero_is_noise_free.
+
+(* ================================================================ the detector-level models
+   simple_adc / sar_adc / sar_adc_with_noise as wired in the source (Gen_C16.src_*_wiring, regenerated
+   on every run): each reads adc_bit_resolution and adc_voltage_range (minimum first) of the detector it
+   is given, hands detector.signal.array (and the detector's own geometry) to the converter, chooses the
+   type with get_dtype(adc_bit_resolution) unless data_type overrides it, and stores the converter's
+   result unchanged as detector.image.array. *)
+Theorem C16_wrappers_wired :
+  simple_wiring_ok src_simple_wiring = true /\ sar_wiring_ok src_sar_wiring = true /\
+  sar0_wiring_ok src_sar0_wiring = true.
+Proof. vm_compute. repeat split; reflexivity. Qed.
+Print Assumptions C16_wrappers_wired.
+
+(* the image is the converter's output on the detector's own characteristics *)
+Theorem C16_detector_image :
+  forall d : adc_detector,
+  run_simple src_dtype_chain src_simple_wiring d None
+    = simple_frame src_dtype_chain (d_bits d) (d_lo d) (d_hi d) (d_signal d) /\
+  run_sar src_dtype_chain src_sar_wiring d = sar_frame src_dtype_chain (d_bits d) (d_hi d) (d_signal d) /\
+  run_sar0 src_dtype_chain src_sar0_wiring d (d_bits d) (d_bits d)
+    = sar0_frame src_dtype_chain (d_bits d) (d_hi d) (d_signal d) /\
+  (forall n m, (n <> d_bits d \/ m <> d_bits d) -> run_sar0 src_dtype_chain src_sar0_wiring d n m = None) /\
+  (forall ps, run_sarp src_dtype_chain src_sar0_wiring d ps
+              = sarp_frame src_dtype_chain (d_bits d) (d_hi d) ps (d_signal d)).
+Proof.
+  intros d. destruct C16_wrappers_wired as [A [B C]].
+  split; [apply run_simple_ok; exact A|]. split; [apply run_sar_ok; exact B|].
+  destruct (run_sar0_ok src_dtype_chain _ d C) as [H1 H2].
+  split; [exact H1|]. split; [exact H2|]. intros ps. apply run_sarp_ok. exact C.
+Qed.
+Print Assumptions C16_detector_image.
+
+(* hence, for every allowed detector setting, the image simple_adc stores satisfies the specification —
+   with the type get_dtype chooses, and with any data_type override at least as wide as the resolution *)
+Theorem C16_simple_adc_detector :
+  forall d : adc_detector, 1 <= d_bits d <= 64 ->
+  is_finite (d_lo d) = true -> is_finite (d_hi d) = true -> (B2R (d_lo d) < B2R (d_hi d))%R ->
+  is_finite (bsub (d_hi d) (d_lo d)) = true ->
+  no_nan (d_signal d) = true -> sortedB (d_signal d) = true ->
+  (exists w cs, run_simple src_dtype_chain src_simple_wiring d None = Some (w, map Some cs) /\
+                simple_spec (d_bits d) (d_lo d) (d_hi d) (d_signal d) w cs = true) /\
+  (forall wd, d_bits d <= wd ->
+   exists cs, run_simple src_dtype_chain src_simple_wiring d (Some wd) = Some (wd, map Some cs) /\
+              simple_spec (d_bits d) (d_lo d) (d_hi d) (d_signal d) wd cs = true).
+Proof.
+  intros d Hb Flo Fhi Hr Fs Hn Hs. destruct C16_wrappers_wired as [A _]. split.
+  - rewrite (run_simple_ok _ _ d A).
+    apply (simple_frame_meets_spec src_dtype_chain ltac:(vm_compute; reflexivity)); assumption.
+  - intros wd Hw.
+    destruct (simple_codes_meet_spec (d_bits d) (d_lo d) (d_hi d) Hb Flo Fhi Hr Fs wd (d_signal d) Hw Hn Hs)
+      as [cs [E Sp]].
+    exists cs. split; [|exact Sp].
+    rewrite (run_simple_override _ _ d wd A eq_refl), E. reflexivity.
+Qed.
+Print Assumptions C16_simple_adc_detector.
+
+(* ================================================================ non-vacuity *)
+
+(* the hypotheses are met by an ordinary setting, and the conclusions are not trivial *)
+Example C16_hyps_satisfiable :
+  is_finite (pzero : b64) = true /\ is_finite (bofZ 6) = true /\ is_finite (bsub (bofZ 6) pzero) = true /\
+  ble (bofZ 3) (bofZ 6) = true /\ ble ninf pzero = true /\ bge pinf (bofZ 6) = true /\
+  chain_width src_dtype_chain 8 = Some 8 /\
+  no_nan [ninf; pzero; bofZ 3; bofZ 6; pinf] = true /\ sortedB [ninf; pzero; bofZ 3; bofZ 6; pinf] = true /\
+  map (simple_code 8 8 pzero (bofZ 6)) [ninf; pzero; bofZ 3; bofZ 6; pinf]
+    = [Some 0; Some 0; Some 127; Some 255; Some 255].
+Proof. vm_compute. repeat split; reflexivity. Qed.
+
+(* the inputs that refuted the full statements before the repairs (C16-F8a, F8b, F8c: the unclamped
+   scaled value is still 2^28 - 2, 2^54, 2^64 there) now give full scale, and stay below it just under
+   the maximum; an intermediate overflow to +inf is clamped instead of making the cast undefined *)
+Example C16_formerly_refuted_inputs :
+  btruncZ (simple_scaled 28 pzero w_short_vmax w_short_vmax) = Some (2 ^ 28 - 2) /\
+  simple_code 32 28 pzero w_short_vmax w_short_vmax = Some (2 ^ 28 - 1) /\
+  btruncZ (simple_scaled 54 (mk (-3) (-1)) (mk 9 (-2)) (mk 9 (-2))) = Some (2 ^ 54) /\
+  simple_code 64 54 (mk (-3) (-1)) (mk 9 (-2)) (mk 9 (-2)) = Some (2 ^ 54 - 1) /\
+  simple_code 64 54 (mk (-3) (-1)) (mk 9 (-2)) (bpred (mk 9 (-2))) = Some (2 ^ 54 - 2) /\
+  btruncZ (simple_scaled 64 pzero (bofZ 1) (bofZ 1)) = Some (2 ^ 64) /\
+  simple_code 64 64 pzero (bofZ 1) (bofZ 1) = Some (2 ^ 64 - 1) /\
+  simple_code 64 64 pzero (mk 1 1000) (mk 1 999) = Some (2 ^ 64 - 2048).
+Proof.
+  pose proof short_scaled_value as [_ A]. pose proof short_repaired as [B _].
+  pose proof high_bits_repaired as [C [D E]]. pose proof wrap_repaired as [F [G _]].
+  pose proof overflow_clamped as [_ H]. repeat split; assumption.
+Qed.
+
+(* the noisy variant with non-zero perturbations differs from the noise-free converter and stays in range *)
+Example C16_noisy_example :
+  sarp_code 8 8 (bofZ 8) [bofZ 1; pzero; pzero; pzero; pzero; pzero; pzero; pzero] (bofZ 4) = Some 102 /\
+  sar_code 8 8 (bofZ 8) (bofZ 4) = Some 128 /\
+  sarp_code 8 8 (bofZ 8) [pinf; bnan; ninf; pzero; pzero; pzero; pzero; pzero] (bofZ 4) = Some 0.
+Proof. vm_compute. repeat split; reflexivity. Qed.
+
+(* the SAR converters at the resolutions that used to fail (C16-F8d, repaired) *)
+Example C16_sar_full_scale_high_bits :
+  sar_code 64 54 (bofZ 1) (bofZ 2) = Some (2 ^ 54 - 1) /\ sar_code 64 64 (bofZ 1) (mk 3 (-2)) = Some (2 ^ 63 + 2 ^ 62).
+Proof. split; [exact sar_full_scale_54|exact sar_top_bit_64]. Qed.
